@@ -519,6 +519,10 @@ class CallMixin:
                 if m == 'find' and self.tyof(args[0]).kind == 'prim':
                     a1 = A(1) if len(args) > 1 and args[1].get('kind') != 'CXXDefaultArgExpr' else '0'
                     return f'cxx_find_char({obj}.p, {obj}.n, {A(0)}, {a1})'
+                if m == 'find_first_of' and self.tyof(args[0]).kind == 'ptr':
+                    a1 = A(1) if len(args) > 1 and args[1].get('kind') != 'CXXDefaultArgExpr' else '0'
+                    o = self.hoist_pure(bt, obj)
+                    return f'cxx_find_first_of_cstr({o}.p, {o}.n, {A(0)}, {a1})'
                 if m == 'rfind' and self.tyof(args[0]).kind == 'ptr' and len(args) >= 2 and re.sub(r'[()\s]|uint64_t|ul', '', A(1)) == '0':
                     # s.rfind(literal, 0): the only possible match position is 0 (the prefix test idiom)
                     o = self.hoist_pure(bt, obj)
